@@ -1,7 +1,10 @@
+import math
 import string
+from decimal import Decimal
 from enum import Enum
 from typing import Any, Optional
 
+from flamapy.core.exceptions import FlamaException
 from flamapy.core.transformations import ModelToText
 from flamapy.core.models.ast import ASTOperation, Node
 from flamapy.metamodels.fm_metamodel.models import FeatureModel, Feature, Constraint
@@ -99,10 +102,21 @@ def read_feature_attributes(feature: Feature, tab_count: int) -> str:
                 attribute_value = f'"{attribute.default_value}"'
             elif isinstance(attribute.default_value, bool):
                 attribute_value = f"{str(attribute.default_value).lower()}"
+            elif isinstance(attribute.default_value, float):
+                attribute_value = _double_literal(attribute.default_value)
             else:
                 attribute_value = f"{attribute.default_value}"
         result += f'\n{tabs}[{safename(attribute.get_name())} = {attribute_value}]'
     return result
+
+
+def _double_literal(value: float) -> str:
+    """A Clafer double literal has no exponent sign and needs a decimal point: 1e+16 is written
+    10000000000000000.0, 1e-05 is written 0.00001."""
+    if not math.isfinite(value):
+        raise FlamaException(f'Clafer has no literal for the value {value}.')
+    text = format(Decimal(repr(value)), 'f')
+    return text if '.' in text else text + '.0'
 
 
 def parse_group_type(feature: Feature) -> Optional[str]:
